@@ -1,3 +1,74 @@
-import WireV.Sets
+import WireP.Lemmas.SolveExample
+/-! # C11 (planner half) — an interface binding is an alias, never a source of its own
+
+Property theorems only; lemmas in `WireP/Lemmas/Solve*.lean`; model `WireV.svStep` / `solve`.
+(The map half — `bind_alias`, `bind_needs_concrete` — is Task B's, about `buildProviderMap`.)
+
+Deviation from the brief: the theorems that speak about *all reachable* types need
+`GivenLeaf pm given`, which `H` does not imply — counterexamples `pmA`, `pmB` below. -/
 namespace WireP.C11
+open WireV WireP.Solve
+
+/-- **A binding never produces a call of its own**: no call outputs the interface type. -/
+theorem bind_no_call {pm : PMap} {sm : SMap} {given : List Ty} {out : Ty} (hH : H pm given)
+    {k : Ty} {pt : PT} (hlp : look k pm = some pt) (hb : pt.t ≠ k) :
+    ∀ c ∈ (final pm sm given out).calls, c.out ≠ k :=
+  WireP.Solve.bind_no_call hH.concClosed hH.givenNodup hlp hb
+
+/-- **The interface shares the concrete type's index entry** (with or without errors). -/
+theorem bind_same_index_partial {pm : PMap} {sm : SMap} {given : List Ty} {out : Ty}
+    (hH : H pm given) (hl : GivenLeaf pm given) {k : Ty} {pt : PT}
+    (hlp : look k pm = some pt) (hb : pt.t ≠ k) (hr : Reach pm out k) :
+    look k (final pm sm given out).index = look pt.t (final pm sm given out).index :=
+  WireP.Solve.bind_same_index_partial hH hl hlp hb hr
+
+/-- … and, without errors, that entry is a variable holding the concrete type -/
+theorem bind_value_partial {pm : PMap} {sm : SMap} {given : List Ty} {out : Ty}
+    (hH : H pm given) (hl : GivenLeaf pm given) (he : (final pm sm given out).errs = [])
+    {k : Ty} {pt : PT} (hlp : look k pm = some pt) (hb : pt.t ≠ k) (hr : Reach pm out k) :
+    ∃ n, look k (final pm sm given out).index = some (some n) ∧
+      look pt.t (final pm sm given out).index = some (some n) ∧
+      produced given (final pm sm given out).calls n = some pt.t :=
+  WireP.Solve.bind_value_partial hH hl he hlp hb hr
+
+/-- **No implicit interface satisfaction**: lookups are by type identity only, so a needed type
+    that is neither given nor a key of the map is an error, whatever else is provided. -/
+theorem no_implicit_iface_partial {pm : PMap} {sm : SMap} {given : List Ty} {out : Ty}
+    (hH : H pm given) (hl : GivenLeaf pm given) {t : Ty}
+    (hlp : look t pm = none) (hng : t ∉ given) (hr : Reach pm out t) :
+    (final pm sm given out).errs ≠ [] :=
+  WireP.Solve.no_implicit_iface_partial hH hl hlp hng hr
+
+/-! ## non-vacuity -/
+
+open WireP.Solve.Ex
+
+example : H pmEx [0] ∧ GivenLeaf pmEx [0] := ⟨hEx, leafEx⟩
+/-- `3` is bound to `2`; it is needed (by `C`), gets no call, and shares variable `2` with `2` -/
+example : (look 3 pmEx).map (·.t) = some 2 := by decide
+example : Reach pmEx 7 3 :=
+  .step (b := 6) ⟨_, rfl, Or.inr ⟨rfl, by decide⟩⟩ <|
+    .step (b := 4) ⟨_, rfl, Or.inr ⟨rfl, by decide⟩⟩ <|
+      .step (b := 3) ⟨_, rfl, Or.inr ⟨rfl, by decide⟩⟩ (.refl 3)
+example : (final pmEx smEx [0] 7).calls.map (·.out) = [1, 2, 4, 5, 6, 7] := by decide
+example : look 3 (final pmEx smEx [0] 7).index = some (some 2) ∧
+    look 2 (final pmEx smEx [0] 7).index = some (some 2) ∧
+    produced [0] (final pmEx smEx [0] 7).calls 2 = some 2 := by decide
+/-- without the value `1`, `1` is needed but nothing is substituted for it -/
+example : H pmMiss [0] ∧ GivenLeaf pmMiss [0] ∧ look 1 pmMiss = none ∧
+    (final pmMiss smMiss [0] 7).errs ≠ [] := ⟨hMiss, leafMiss, by decide, by decide⟩
+
+/-- `GivenLeaf` cannot be dropped from `bind_same_index_partial`: with a given type `3` that is
+    the key of a binding `3 ↦ 2`, `H` holds, there is no error, `3` is (trivially) reachable from
+    the request `3`, and `3` is indexed while `2` is not. -/
+example : H pmA [3] ∧ (final pmA [] [3] 3).errs = [] ∧ Reach pmA 3 3 ∧
+    look 3 (final pmA [] [3] 3).index = some (some 0) ∧
+    look 2 (final pmA [] [3] 3).index = none :=
+  ⟨hA, by decide, .refl 3, by decide, by decide⟩
+
+/-- … nor from `no_implicit_iface_partial` -/
+example : H pmB [0] ∧ look 5 pmB = none ∧ 5 ∉ [0] ∧ Reach pmB 0 5 ∧
+    (final pmB smB [0] 0).errs = [] :=
+  ⟨hB, by decide, by decide, reachB5, by decide⟩
+
 end WireP.C11
